@@ -392,6 +392,70 @@ func runHopInner(s *HopScript) (bool, *vt.Finding) {
 	}
 	c.Class(labels...)
 
+	// ---- leg 2: raw client of the same transport (wire observation) ----------
+	r.sink.reset(o.err())
+	var w wireStatus
+	if s.Transport == trGRPC {
+		w = E.rawGRPC(s.Auth, credValue(cred), s.Signal, fresh(), s.Compression)
+	} else {
+		body, eerr := encodeReq(fresh(), s.Transport == trHTTPJSON)
+		if eerr != nil {
+			return false, vt.Failf("harness/encode", "encodeReq: %v", eerr)
+		}
+		enc := ""
+		switch s.Compression {
+		case "gzip", "zlib", "deflate":
+			enc = s.Compression
+		}
+		cb, cerr := compressBody(enc, body)
+		if cerr != nil {
+			return false, vt.Failf("harness/compress", "%v", cerr)
+		}
+		ct := ctProto
+		if s.Transport == trHTTPJSON {
+			ct = ctJSON
+		}
+		var herr error
+		w, herr = E.rawHTTP(rawReq{Auth: s.Auth, Method: "POST", Path: urlPath[s.Signal], ContentType: ct, ContentEncoding: enc, CredValue: credValue(cred), Body: cb})
+		if herr != nil {
+			return true, vt.Failf("wire/http-transport-error", "raw POST failed: %v", herr)
+		}
+	}
+	calls2, trees2 := r.sink.snapshot()
+
+	// ---- oracle: what was on the wire (raw leg) first, then what the exporter concluded ----
+	switch {
+	case !authorised:
+		if calls2 != 0 {
+			return true, vt.Failf("unauthenticated/reached-consumer/"+tk, "%s: raw request with credentials %q reached the consumer", s.Transport, cred)
+		}
+		if s.Transport == trGRPC {
+			if codes.Code(w.Code) != codes.Unauthenticated {
+				return true, vt.Failf("unauthenticated/wire-status/grpc", "raw gRPC request with credentials %q answered with %s", cred, codes.Code(w.Code))
+			}
+		} else if w.HTTP != 401 {
+			return true, vt.Failf("unauthenticated/wire-status/http", "raw HTTP request with credentials %q answered with %d", cred, w.HTTP)
+		}
+	case items == 0:
+		if calls2 != 0 {
+			return true, vt.Failf("no-items/consumer-invoked/"+tk, "%s %s: raw request without items invoked the consumer", s.Signal, s.Transport)
+		}
+		if s.Transport == trGRPC && codes.Code(w.Code) != codes.OK || s.Transport != trGRPC && w.HTTP != 200 {
+			return true, vt.Failf("no-items/not-acknowledged/"+tk, "%s %s: raw request without items answered with grpc=%s http=%d", s.Signal, s.Transport, codes.Code(w.Code), w.HTTP)
+		}
+	default:
+		if calls2 != 1 {
+			return true, vt.Failf("consumer-calls/"+tk, "%s %s: one raw request produced %d consumer calls", s.Signal, s.Transport, calls2)
+		}
+		if f := comparePayload(c, s, "raw leg", s.Signal, s.Transport, sent, trees2[0]); f != nil {
+			return true, f
+		}
+		if f := checkWire(s.Transport, o, w); f != nil {
+			return true, f
+		}
+	}
+	// ---- oracle: the exporter leg ---------------------------------------------------------
+
 	switch {
 	case !authorised:
 		// never reaches the consumer, client-error status, not to be retried
@@ -426,68 +490,15 @@ func runHopInner(s *HopScript) (bool, *vt.Finding) {
 		}
 	}
 
-	// ---- leg 2: raw client of the same transport (wire observation) ----------
-	r.sink.reset(o.err())
-	var w wireStatus
-	if s.Transport == trGRPC {
-		w = E.rawGRPC(s.Auth, credValue(cred), s.Signal, fresh(), s.Compression)
-	} else {
-		body, eerr := encodeReq(fresh(), s.Transport == trHTTPJSON)
-		if eerr != nil {
-			return false, vt.Failf("harness/encode", "encodeReq: %v", eerr)
-		}
-		enc := ""
-		switch s.Compression {
-		case "gzip", "zlib", "deflate":
-			enc = s.Compression
-		}
-		cb, cerr := compressBody(enc, body)
-		if cerr != nil {
-			return false, vt.Failf("harness/compress", "%v", cerr)
-		}
-		ct := ctProto
-		if s.Transport == trHTTPJSON {
-			ct = ctJSON
-		}
-		var herr error
-		w, herr = E.rawHTTP(rawReq{Auth: s.Auth, Method: "POST", Path: urlPath[s.Signal], ContentType: ct, ContentEncoding: enc, CredValue: credValue(cred), Body: cb})
-		if herr != nil {
-			return true, vt.Failf("wire/http-transport-error", "raw POST failed: %v", herr)
-		}
-	}
-	calls, trees = r.sink.snapshot()
-	switch {
-	case !authorised:
-		if calls != 0 {
-			return true, vt.Failf("unauthenticated/reached-consumer/"+tk, "%s: raw request with credentials %q reached the consumer", s.Transport, cred)
-		}
-		if s.Transport == trGRPC {
-			if codes.Code(w.Code) != codes.Unauthenticated {
-				return true, vt.Failf("unauthenticated/wire-status/grpc", "raw gRPC request with credentials %q answered with %s", cred, codes.Code(w.Code))
-			}
-		} else if w.HTTP != 401 {
-			return true, vt.Failf("unauthenticated/wire-status/http", "raw HTTP request with credentials %q answered with %d", cred, w.HTTP)
-		}
-	case items == 0:
-		if calls != 0 {
-			return true, vt.Failf("no-items/consumer-invoked/"+tk, "%s %s: raw request without items invoked the consumer", s.Signal, s.Transport)
-		}
-		if s.Transport == trGRPC && codes.Code(w.Code) != codes.OK || s.Transport != trGRPC && w.HTTP != 200 {
-			return true, vt.Failf("no-items/not-acknowledged/"+tk, "%s %s: raw request without items answered with grpc=%s http=%d", s.Signal, s.Transport, codes.Code(w.Code), w.HTTP)
-		}
-	default:
-		if calls != 1 {
-			return true, vt.Failf("consumer-calls/"+tk, "%s %s: one raw request produced %d consumer calls", s.Signal, s.Transport, calls)
-		}
-		if f := comparePayload(c, s, "raw leg", s.Signal, s.Transport, sent, trees[0]); f != nil {
-			return true, f
-		}
-		if f := checkWire(s.Transport, o, w); f != nil {
-			return true, f
-		}
-	}
 	nt := o.Kind != "nil" || s.Compression != "" || !authorised
 	return nt, nil
+}
+
+func b2i(b bool) int {
+	if b {
+		return 1
+	}
+	return 0
 }
 
 func orNone(s string) string {
@@ -515,6 +526,9 @@ func checkWire(transport string, o Outcome, w wireStatus) *vt.Finding {
 			}
 			if o.Retry && (!w.HasRetry || w.RetryDelay != o.delay()) {
 				return vt.Failf("wire/grpc-retryinfo", "consumer returned %s, gRPC answer carries RetryInfo=%v delay=%v", o, w.HasRetry, w.RetryDelay)
+			}
+			if want := b2i(o.Retry) + b2i(o.Extra); w.NDetails != want {
+				return vt.Failf("wire/grpc-details", "consumer returned %s (%d details), gRPC answer carries %d details", o, want, w.NDetails)
 			}
 			if !o.Retry && w.HasRetry {
 				return vt.Failf("wire/grpc-retryinfo-invented", "consumer returned %s, gRPC answer carries RetryInfo delay=%v", o, w.RetryDelay)
